@@ -205,6 +205,63 @@ def check_fock_homodyne_rng():
                 bad(f"{label}: mode {o} is not left in the state conditioned on the reported outcome {outcome:.3f}: moments {np.round(a, 3).tolist()} vs {np.round(b, 3).tolist()}")
 
 
+def check_bosonic_threshold_conditioning():
+    """bosonic simulator, threshold detector on one mode of a displaced, squeezed, entangled two-mode state: for BOTH outcomes the
+    other mode is left in the conditional state Tr_0[E rho E]/p with E = |0><0| (no click) or 1 - |0><0| (click), computed
+    independently from the Fock-backend ket; the measured mode is reset to vacuum"""
+    cut = 28
+    def prep2(q):
+        ops.Sgate(0.5) | q[0]
+        ops.Dgate(0.6, 0.3) | q[0]
+        ops.Sgate(0.3, 0.4) | q[1]
+        ops.BSgate(np.pi / 4, 0.2) | (q[0], q[1])
+    for k in (0, 1):
+        prog = sf.Program(2)
+        with prog.context as q:
+            prep2(q)
+        psi = sf.Engine("fock", backend_options={"cutoff_dim": cut}).run(prog).state.ket()
+        if k == 1:
+            psi = psi.T
+        ref = {}
+        for outcome in (0, 1):
+            rows = psi[:1] if outcome == 0 else psi[1:]
+            rho1 = np.einsum("ab,ac->bc", rows, rows.conj())
+            pr = np.trace(rho1).real
+            rho1 = rho1 / pr
+            nbar = float(np.sum(np.arange(cut) * np.diag(rho1).real))
+            a = sum(np.sqrt(m) * rho1[m, m - 1] for m in range(1, cut))
+            ref[outcome] = (pr, nbar, 2 * a.real, 2 * a.imag)            # hbar = 2: <x> = 2 Re<a>, <p> = 2 Im<a>
+        seen = set()
+        for sd in range(40):
+            if len(seen) == 2:
+                break
+            np.random.seed(1000 + sd)
+            progm = sf.Program(2)
+            with progm.context as q:
+                prep2(q)
+                ops.MeasureThreshold() | q[k]
+            try:
+                res = sf.Engine("bosonic").run(progm)
+            except Exception as e:
+                bad(f"bosonic MeasureThreshold on mode {k}: raised {type(e).__name__}: {e}")
+                break
+            outcome = int(res.samples[0, 0])
+            if outcome in seen:
+                continue
+            seen.add(outcome)
+            EVAL[0] += 1
+            o = 1 - k
+            st = res.state
+            got = (st.mean_photon(o)[0], st.quad_expectation(o, 0)[0], st.quad_expectation(o, np.pi / 2)[0])
+            exp = ref[outcome][1:]
+            if not np.allclose(got, exp, atol=2e-4):
+                bad(f"bosonic MeasureThreshold on mode {k}, outcome {outcome} (probability {ref[outcome][0]:.3f}): mode {o} has (<n>, <x>, <p>) = {np.round(got, 4).tolist()}, the conditional state has {np.round(exp, 4).tolist()}")
+            if abs(st.mean_photon(k)[0]) > 1e-8:
+                bad(f"bosonic MeasureThreshold on mode {k}: the measured mode is not reset to vacuum (<n> = {st.mean_photon(k)[0]:.4g})")
+        if len(seen) < 2:
+            bad(f"bosonic MeasureThreshold on mode {k}: only outcomes {sorted(seen)} in 40 runs although both have probability > 0.2")
+
+
 def check_fock_measure():
     cut = 3
     rng = np.random.RandomState(seed)
@@ -339,7 +396,7 @@ def check_collation():
 
 
 if __name__ == "__main__":
-    for f in (check_gaussian_rng, check_fock_homodyne_rng, check_fock_measure, check_cross_backend_postselect, check_collation):
+    for f in (check_gaussian_rng, check_fock_homodyne_rng, check_bosonic_threshold_conditioning, check_fock_measure, check_cross_backend_postselect, check_collation):
         try:
             f()
         except Exception:
